@@ -15,10 +15,10 @@ package main
 import (
 	"context"
 	"encoding/json"
-	"reflect"
 	"errors"
 	"fmt"
 	"os"
+	"reflect"
 	"sort"
 	"strconv"
 	"strings"
@@ -45,7 +45,10 @@ import (
 var errInjected = errors.New("injected store failure")
 
 type faultDB struct {
-	inner  *inmemory.DB
+	inner *inmemory.DB
+	// transactions that were discarded or committed: like Badger, SQLite and Postgres (and unlike the in-memory
+	// DB, whose Discard is a no-op) they refuse every further operation
+	closed map[database.Transaction]bool
 	armed  bool
 	ctr    int
 	failAt int
@@ -73,13 +76,38 @@ type faultTxn struct {
 	db    *faultDB
 }
 
+var errTxnClosed = errors.New("this transaction has been discarded")
+
+func (d *faultDB) closeTxn(t database.Transaction) {
+	if d.closed == nil {
+		d.closed = map[database.Transaction]bool{}
+	}
+	d.closed[t] = true
+}
+
+// txnClosed reports whether ctx carries a transaction that was already discarded or committed
+func (d *faultDB) txnClosed(ctx context.Context) bool {
+	t := database.TransactionFromContext(ctx)
+	return t != nil && d.closed[t]
+}
+
 func (t *faultTxn) Commit() error {
+	if t.db.closed[t.inner] {
+		return errTxnClosed
+	}
 	if err := t.db.tick("Commit"); err != nil {
 		return err
 	}
-	return t.inner.Commit()
+	err := t.inner.Commit()
+	if err == nil {
+		t.db.closeTxn(t.inner)
+	}
+	return err
 }
-func (t *faultTxn) Discard() { t.inner.Discard() }
+func (t *faultTxn) Discard() {
+	t.inner.Discard()
+	t.db.closeTxn(t.inner)
+}
 
 func (d *faultDB) NewTransaction(ctx context.Context, update bool) (database.Transaction, context.Context, error) {
 	if err := d.tick("NewTransaction"); err != nil {
@@ -91,21 +119,30 @@ func (d *faultDB) NewTransaction(ctx context.Context, update bool) (database.Tra
 	}
 	return &faultTxn{inner: t, db: d}, c, nil
 }
-func (d *faultDB) Close() error                 { return nil }
-func (d *faultDB) Ping(context.Context) error   { return nil }
+func (d *faultDB) Close() error               { return nil }
+func (d *faultDB) Ping(context.Context) error { return nil }
 func (d *faultDB) Set(ctx context.Context, key string, value []byte) error {
+	if d.txnClosed(ctx) {
+		return errTxnClosed
+	}
 	if err := d.tick("Set"); err != nil {
 		return err
 	}
 	return d.inner.Set(ctx, key, value)
 }
 func (d *faultDB) Get(ctx context.Context, key string) ([]byte, error) {
+	if d.txnClosed(ctx) {
+		return nil, errTxnClosed
+	}
 	if err := d.tick("Get"); err != nil {
 		return nil, err
 	}
 	return d.inner.Get(ctx, key)
 }
 func (d *faultDB) GetKeys(ctx context.Context, prefix string) ([]string, error) {
+	if d.txnClosed(ctx) {
+		return nil, errTxnClosed
+	}
 	if err := d.tick("GetKeys"); err != nil {
 		return nil, err
 	}
@@ -402,6 +439,7 @@ type viewV struct {
 	Pr    []prV `json:"pr"`
 	Names []int `json:"names"`
 }
+
 // deltaV is the difference between two views of the same kind: instances that
 // are new or changed, ids that disappeared, the name set if it changed.
 type deltaV struct {
